@@ -49,12 +49,19 @@ def lib_table():
     return m.sense_ascq_dict
 
 
-def check_buffer(buf, print_data=False, which=0, cheap=False):
+def construct(buf, print_data=False, which=0):
     cls = classes_under_test()[which]
     try:
-        exc = cls(bytearray(buf), print_data) if print_data else cls(bytearray(buf))
+        return cls(bytearray(buf), print_data) if print_data else cls(bytearray(buf))
     except Exception as e:  # noqa
         raise Violation("exc:%s@construct" % type(e).__name__, {"buf": bytes(buf).hex(), "error": repr(e)[:200]})
+
+
+def check_buffer(buf, print_data=False, which=0, cheap=False):
+    return verify(construct(buf, print_data, which), buf, cheap)
+
+
+def verify(exc, buf, cheap=False):
     out = io.StringIO()
     try:
         with contextlib.redirect_stdout(out):
@@ -97,6 +104,17 @@ def check_buffer(buf, print_data=False, which=0, cheap=False):
         else:
             nontrivial = True
     return nontrivial
+
+
+def check_sequence(cases):
+    """several CheckCondition objects alive at once: each must keep reporting its own buffer."""
+    excs = [construct(c["buf"], c["print"], c["which"]) for c in cases]
+    nt = False
+    for e, c in zip(excs, cases):
+        nt = verify(e, c["buf"]) or nt
+    for e, c in zip(reversed(excs), reversed(cases)):
+        verify(e, c["buf"], cheap=True)
+    return len(cases) >= 2, ("sequence",)
 
 
 def canonical(rc, valid, key, asc, ascq):
@@ -198,12 +216,16 @@ def run(ctx):
                 common.run_one(ctx, "other_response_codes", {"buf": bytes([rc]) + bytes(n - 1), "print": False, "which": 0},
                                check_generated)
     common.search(ctx, "generated", gen_buffer(), check_generated, ctx.n(6000, 200000))
+    common.search(ctx, "alive_together", st.lists(gen_buffer(), min_size=2, max_size=4), check_sequence, ctx.n(1500, 40000))
 
 
 def replay(ctx, subject, case):
-    check_generated(case)
+    if subject == "alive_together":
+        check_sequence(case)
+    else:
+        check_generated(case)
 
 
 def floors(tier, classes, subjects, evaluations, distinct):
-    return ["class %s never generated" % c for c in ("truncated", "print_data", "rc_71", "rc_73", "rc_other")
+    return ["class %s never generated" % c for c in ("sequence", "truncated", "print_data", "rc_71", "rc_73", "rc_other")
             if not classes.get(c)]
